@@ -133,7 +133,7 @@ PROPS = {
                 assumptions=["solana_instruction::Instruction / AccountMeta and bytemuck::bytes_of are external (modelled)"]),
     "C16": dict(module="ZkElGamal.Props.C16", ns="Zk.Props.C16", extra=[consts_check], exhaustive=True,
                 assumptions=["bytemuck layout of repr(C) structs with alignment 1 (modelled; validated differentially against bytemuck on the real types)"]),
-    "C17": dict(module="ZkElGamal.Props.C17", ns="Zk.Props.C17", gens=[], extra=[consts_check], exhaustive=True,
+    "C17": dict(module="ZkElGamal.Props.C17", ns="Zk.Props.C17", gens=["C17"], extra=[consts_check], exhaustive=True,
                 rule="finite tables: 13 discriminators, 13 proof types, 12 context account sizes, header size, program id; "
                      "each row is one case; the Rust column is additionally compared with the compiled crate (zkh const)",
                 assumptions=["TypeScript sources are parsed as text (enum bodies, exported numeric constants, address literal)"]),
@@ -251,6 +251,6 @@ MANIFEST_TEXT = {
         note="Trusted: Lean kernel; translator; bytemuck's treatment of align-1 repr(C) structs (the `unsafe impl Pod`) is validated differentially, not proved."),
     "C17": dict(
         technique="Lean 4 `decide +kernel` over two tables regenerated from the TypeScript and Rust sources on every run; Rust column cross-checked against the compiled crate",
-        text="Exhaustive finite-table equality: 13 discriminators, 13 proof types, 12 per-action context account sizes (= header + size_of context), header size, program address (base58-decoded) — proved by the kernel on regenerated tables and re-compared with values reported by the compiled crate.",
+        text="Exhaustive finite-table equality: 13 discriminators, 13 proof types, 12 per-action context account sizes (= header + size_of context), header size, program address (base58-decoded) — proved by the kernel on regenerated tables and re-compared with values reported by the compiled crate. Correspondence: every byte 0..255 through the SDK's proof-type and instruction-type readers, a context state of every proof type for every context layout written and read back, zeroed accounts of each declared size.",
         note="Trusted: Lean kernel; translator's TS/Rust text parsing (a parse failure is reported as a broken obligation, never a silent pass)."),
 }
